@@ -203,6 +203,12 @@ def totality(text, script, cfg, seedv=0, interrupts=True):
             if f is not None:
                 failures.append((f[0], dict(f[1], config=name, k=k, T=T)))
                 break
+        for k in ks[::5][:12]:
+            f = interrupt_while_stopped(m.module, sc, k, cfg)
+            info['k_tested'] += 1
+            if f is not None:
+                failures.append((f[0], dict(f[1], config=name, k=k, T=T)))
+                break
     seen = {}
     for b, d in failures:
         seen.setdefault(b, d)
@@ -247,6 +253,60 @@ def interrupt_at(module, sc, k, free, cfg):
         return ('interrupt:state_changed', {'fields': which})
     if state['calls'] != state['calls_after']:
         return ('interrupt:device_call_after_request', {})
+    return None
+
+
+def interrupt_while_stopped(module, sc, k, cfg):
+    """The request arrives while the machine stands between two
+    instructions outside run() - before the first run() (k = 0) or stopped at
+    a breakpoint after k instructions - and the run is then continued with
+    run(): it must stop at once with the keyboard-interrupt error."""
+    import contextlib
+    import io
+    machine, impl, out = X.make_machine(module, sc)
+    cpu = machine.cpu
+    n = [0]
+    orig_tick = cpu.tick
+
+    def counting_tick():
+        n[0] += 1
+        return orig_tick()
+    cpu.tick = counting_tick
+    try:
+        with contextlib.redirect_stdout(io.StringIO()), \
+                X.guard(X.RUN_TIMEOUT):
+            if k > 0:
+                bp = lambda c: n[0] >= k
+                cpu.add_breakpoint(bp)
+                cpu.run()
+                cpu.del_breakpoint(bp)
+                if n[0] != k or cpu.halt_reason.name != 'BREAKPOINT':
+                    return None         # the run ended before k
+            snap = M.snapshot(cpu)
+            calls = impl.n_calls
+            cpu.signal_handler(signal.SIGINT, None)
+            cpu.run()
+            after = M.snapshot(cpu)
+    except X.HangGuard:
+        return ('interrupt_stopped:hang', {})
+    except X.ScriptExhausted:
+        return None
+    except BaseException as e:
+        if isinstance(e, (KeyboardInterrupt, MemoryError)):
+            raise
+        h = X.HostExc(e, 'run')
+        return ('interrupt_stopped:host_exc:' + h.bucket(),
+                {'tb': h.tb[-800:]})
+    trap = cpu.last_trap.name if cpu.last_trap else None
+    if not cpu.halted or cpu.halt_reason.name != 'TRAP' or \
+            trap != 'KEYBOARD_INTERRUPT':
+        return ('interrupt_stopped:request_lost', {
+            'halted': cpu.halted, 'reason': cpu.halt_reason.name,
+            'trap': trap, 'ticks_after_request': n[0] - k})
+    if (snap[0],) + snap[2:] != (after[0],) + after[2:]:
+        return ('interrupt_stopped:state_changed', {})
+    if impl.n_calls != calls:
+        return ('interrupt_stopped:device_call_after_request', {})
     return None
 
 
